@@ -59,6 +59,10 @@ impl Check for C18 {
     }
 
     fn gen(&self, run_seed: u64, idx: u64, _tier: Tier) -> Trace {
+        if self.id == "C18" && idx % 16 == 5 {
+            // liveness beside a slow peer with a very long reply pending (directed scenario, model-free oracle)
+            return crate::stuck::gen_big_reply("C18", run_seed);
+        }
         let mut r = Rng::new(run_seed);
         let mut cfg = SimConfig::default();
         cfg.operators.push(OperCfg { name: "root".into(), password: "rootpw".into(), mask: None });
@@ -415,6 +419,9 @@ impl Check for C18 {
     }
 
     fn exec(&self, trace: &Trace) -> Outcome {
+        if trace.params.get("scenario").map_or(false, |s| s == "slow_big_reply") {
+            return crate::stuck::exec_big_reply(trace, self.id);
+        }
         let t = trace.clone();
         let id = self.id;
         match rt::run_sim_timeout(trace.run_seed, 90, move || async move { exec_inner(t, id).await }) {
